@@ -11,11 +11,13 @@ NATIVE = 'plain'          # LIS.core.EngVal imports LIS.core.RepCode
 NEEDS = ('icontract',)
 RULE = ('OSDD: every ordered pair of units inside each of the 134 dimensions (102 825 pairs, identity pairs included) x 12 values '
         '(0, +-1, +-pi, 1e-30, 1e30, the offsets of the two units, three random magnitudes) through convert, convert_function, '
-        'convert_array and convert_array_inplace (float64; 1-D, 2-D, strided and transposed arrays) and back again; triples sampled '
+        'convert_array and convert_array_inplace (float64; 1-D, 2-D, 3-D, strided, reversed, transposed, big-endian and read-only arrays) and back again; '
+        'per first unit also empty, 0-d, float32 and integer arrays and int / numpy scalars; triples sampled (half of them with freshly built Unit objects) '
         '(thorough: all triples of the dimensions with <= 12 units as well); cross-dimension pairs sampled, plus case-variant '
-        'dimension names.  LIS: every pair and triple inside each of the 38 categories, every cross-category pair, generated unknown '
-        'names; EngVal + - / += -= < <= == != > >= getInUnits convert newEngValInUnits with convertible, identical, non-convertible '
-        'and unknown units.  A conversion case is non-trivial when the two units differ in scale or offset and the value is not 0; a '
+        'dimension names and one unit pair for every ordered pair of the 134 dimensions.  LIS: every pair and triple inside each of the 38 categories, every cross-category pair, generated unknown '
+        'names, also through the category object (retUnitConvertCategory(c).convert) and the unit objects (retUnitConvert(u).convert); '
+        'EngVal + - / += -= < <= == != > >= getInUnits convert newEngValInUnits newEngValInOpticalUnits with convertible, identical, non-convertible '
+        'and unknown units, a third of the operations on the objects left by the previous operation (histories).  A conversion case is non-trivial when the two units differ in scale or offset and the value is not 0; a '
         'refusal case always is.  Distinct by (unit, unit[, unit], value).')
 ASSUMPTIONS = [
     'the documented affine map (v - offset_from) * scale_from / scale_to + offset_to evaluated in exact rationals on the float table entries is the reference',
@@ -24,7 +26,10 @@ ASSUMPTIONS = [
     'dimension identity is exact string equality, as the table uses it; refusal is any instance of the module\'s ExceptionUnits (common.units / LIS.core.Units)',
     'the LIS table is taken from the __RAW_UNIT_MAP literal in the source text (ast), the OSDD table from the JSON file; a disagreement between these and the live tables makes the run inconclusive, it is not a conversion defect',
     'EngVal: units given as bytes; a denominator in the blank unit (only NUL / whitespace in its first four bytes, which Mnem equates) is the documented "treat as a real number" case and is not a refusal; operations on two values in the same unknown unit request no conversion',
-    'value None (LIS convert returns 0.0) and non-float arrays are outside the quantifier ("all finite values")',
+    'value None (LIS convert returns 0.0) and in-place conversion of integer arrays (numpy refuses the cast) are outside the quantifier ("all finite values")',
+    'float32 arrays: the operations involved are float32 operations; the bound is 8 * 2^-23 * largest magnitude, asserted while all magnitudes stay within 1e-30 .. 1e30',
+    'newEngValInOpticalUnits: which unit is the "optical" one is not asserted, only that value and unit of the result describe the same quantity',
+    'retUnitConvert(u).convert(v, other) between unit objects of different categories is the documented internal no-check path and is not asserted',
 ]
 MECHANISMS = [
     ('TotalDepth.common.units', '_convert'), ('TotalDepth.common.units', 'convert'), ('TotalDepth.common.units', 'convert_function'),
@@ -36,9 +41,9 @@ MECHANISMS = [
     ('TotalDepth.LIS.core.EngVal', 'EngVal.__truediv__'), ('TotalDepth.LIS.core.EngVal', 'EngVal.__lt__'),
     ('TotalDepth.LIS.core.EngVal', 'EngVal.__eq__'),
 ]
-REQUIRED_MONITORS = ['affine_oracle', 'round_trip', 'identity', 'transitivity', 'array_vs_scalar', 'large_array_vs_pieces', 'refusal_cross_dimension',
+REQUIRED_MONITORS = ['affine_oracle', 'round_trip', 'identity', 'transitivity', 'array_vs_scalar', 'array_kinds', 'large_array_vs_pieces', 'refusal_cross_dimension',
                      'lis_affine_oracle', 'lis_round_trip', 'lis_transitivity', 'lis_refusal',
-                     'engval_arithmetic', 'engval_comparison', 'engval_refusal', 'eventlog:LIS.Units.convert']
+                     'engval_arithmetic', 'engval_comparison', 'engval_refusal', 'engval_history', 'lis_other_entry_points', 'eventlog:LIS.Units.convert']
 MIN_NONTRIVIAL = {'quick': 700000, 'thorough': 3500000}
 TIMEOUT_S = {'quick': 400, 'thorough': 3000}
 NSHARDS = 16
@@ -242,7 +247,7 @@ class Osdd:
                 arr = np.array(vals, dtype=np.float64)
                 nv = len(vals)                 # a multiple of 12
                 shape_sel += 1
-                mode = shape_sel % 4
+                mode = shape_sel % 8
                 guard = None
                 if mode == 1:
                     src = arr.reshape(3, nv // 3)
@@ -252,14 +257,24 @@ class Osdd:
                     src = guard[::2]               # a strided view: its neighbours must stay 7.25
                 elif mode == 3:
                     src = np.asfortranarray(arr.reshape(4, nv // 4))
+                elif mode == 4:
+                    src = arr[::-1].copy()[::-1]   # a view with a negative stride, same logical order
+                elif mode == 5:
+                    src = arr.astype('>f8')        # big-endian, as read from a file
+                elif mode == 6:
+                    src = arr.reshape(2, 2, nv // 4)
+                elif mode == 7:
+                    src = arr.copy()
+                    src.flags.writeable = False    # the copying conversion needs no write access
                 else:
                     src = arr
+                rec.cls('array-layout:' + ('1-D', '2-D', 'strided-view', 'fortran-2-D', 'negative-stride-view', 'big-endian', '3-D', 'read-only-input')[mode])
                 keep = src.copy(order='K')
                 out = U.convert_array(src, ua, ub)
                 copy_ok = np.array_equal(src, keep) and out is not src
                 # reshape(-1) walks the logical (row-major) order whatever the memory layout: same order as vals
                 ares = [float(x) for x in np.asarray(out).reshape(-1)]
-                inp = keep.copy(order='K') if mode != 2 else src
+                inp = keep.copy(order='K') if mode not in (2, 4) else src
                 ret = U.convert_array_inplace(inp, ua, ub)
                 ires = [float(x) for x in np.asarray(inp).reshape(-1)]
                 back = [U.convert(r, ub, ua) for r in scal]
@@ -322,13 +337,82 @@ class Osdd:
         rec.maxi('max_err_eps_of_magnitude_osdd', worst)
         return evals, nt, shape_sel
 
+    def array_kinds(self, a, b):
+        """Array and scalar kinds the pair sweep does not use: empty, 0-d, float32 and integer arrays; int and numpy scalars."""
+        U, np, rec, rng = self.U, self.np, self.rec, self.rng
+        ua, ub = self.real[a.code], self.real[b.code]
+        P = self.pair(a, b)
+        rec.mon('array_kinds')
+        rec.case(('array-kinds', a.code, b.code), a.fscale != b.fscale or a.foffset != b.foffset, classes=['array-kinds'])
+        w0 = {'unit_from': udesc(a), 'unit_to': udesc(b)}
+        try:
+            # empty arrays keep their shape
+            for shape in ((0,), (0, 3)):
+                e = np.zeros(shape)
+                out = U.convert_array(e, ua, ub)
+                U.convert_array_inplace(e, ua, ub)
+                if np.asarray(out).shape != shape or e.shape != shape:
+                    self.rep('array_kinds', 'empty', 'conversion of an empty array of shape %r gives shape %r' % (shape, np.asarray(out).shape), dict(w0, shape=list(shape)))
+            vals = [1.0, -2.5, 100.25, 1234.5, float(rng.randrange(-4000, 4000)) / 8]
+            exact = [P.exact(v) for v in vals]
+            ok = [P.in_range(v, e) for v, e in zip(vals, exact)]
+            mags = [P.magnitude(v, e) for v, e in zip(vals, exact)]
+            # 0-d arrays and numpy / int scalars
+            for v, e, M, fine in zip(vals, exact, mags, ok):
+                if not fine:
+                    continue
+                z = np.array(v)
+                zi = np.array(v)
+                U.convert_array_inplace(zi, ua, ub)
+                got = {'convert_array(0-d)': float(U.convert_array(z, ua, ub)), 'convert_array_inplace(0-d)': float(zi),
+                       'convert(numpy.float64)': float(U.convert(np.float64(v), ua, ub)), 'convert_function(numpy.float64)': float(U.convert_function(ua, ub)(np.float64(v)))}
+                if v == int(v):
+                    got['convert(int)'] = float(U.convert(int(v), ua, ub))
+                for name, r in got.items():
+                    self.verdict('array_kinds', name, a, b, v, r, e, M)
+            # integer array through the copying conversion
+            iv = [0, 1, -3, 1000, rng.randrange(-10 ** 6, 10 ** 6)]
+            out = U.convert_array(np.array(iv, dtype=np.int64), ua, ub)
+            for v, r in zip(iv, [float(x) for x in np.asarray(out).reshape(-1)]):
+                e = P.exact(v)
+                if P.in_range(float(v), e):
+                    self.verdict('array_kinds', 'convert_array(int64 array)', a, b, v, r, e, P.magnitude(float(v), e))
+            # float32 arrays: float32 operations, float32 bound
+            f32 = np.array(vals, dtype=np.float32)
+            out = U.convert_array(f32.copy(), ua, ub)
+            inp = f32.copy()
+            U.convert_array_inplace(inp, ua, ub)
+            for name, arr in (('convert_array(float32 array)', out), ('convert_array_inplace(float32 array)', inp)):
+                res = [float(x) for x in np.asarray(arr).reshape(-1)]
+                if len(res) != len(vals):
+                    self.rep('array_kinds', 'shape', '%s returned %d values for %d' % (name, len(res), len(vals)), w0)
+                    continue
+                for v, r, e, M in zip(vals, res, exact, mags):
+                    t1 = abs(v - a.foffset)
+                    small = min([x for x in (abs(v), t1, t1 * a.fscale, t1 * P.fratio, abs(float(e)), a.fscale, b.fscale, P.fratio) if x] or [1.0])
+                    if not (max(M, a.fscale, b.fscale, P.fratio, t1 * a.fscale) < 1e30 and small > 1e-30):
+                        rec.add('float32_skipped_out_of_range')
+                        continue
+                    err32 = self.R.err_eps(r, e, M) * EPS / 2.0 ** -23
+                    rec.maxi('max_err_eps32_of_magnitude', err32 if err32 != float('inf') else 0.0)
+                    if err32 > 8:
+                        self.rep('array_kinds', name, '%s(%r, %s -> %s) = %r, exact %.9g: off by %.3g float32 eps of the largest magnitude %.3g (bound 8)' % (
+                            name, v, a.code, b.code, r, float(e), err32, M), dict(w0, function=name, value=v, got=r, exact=float(e), err_eps32=err32, magnitude=M))
+        except Exception as e:  # noqa
+            self.rep('array_kinds', 'raises', 'conversion %s -> %s of an empty / 0-d / float32 / integer array or a numpy scalar raised %s: %s' % (a.code, b.code, type(e).__name__, e), w0, exc=e)
+
     def triple(self, a, b, c, vals):
         U, rec = self.U, self.rec
         ua, ub, uc = self.real[a.code], self.real[b.code], self.real[c.code]
+        fresh = self.rng.random() < 0.5
+        if fresh:
+            rec.cls('osdd-triple-with-fresh-unit-objects')
         Pab, Pac, Pcb = self.pair(a, b), self.pair(a, c), self.pair(c, b)
         n = 0
         for v in vals:
             try:
+                if fresh:          # equal content, new objects every time (short-lived: their ids get recycled)
+                    ua, ub, uc = U.Unit(*tuple(self.real[a.code])), U.Unit(*tuple(self.real[b.code])), U.Unit(*tuple(self.real[c.code]))
                 r1 = U.convert(v, ua, uc)
                 r2 = U.convert(r1, uc, ub)
                 rd = U.convert(v, ua, ub)
@@ -363,6 +447,8 @@ class Osdd:
         U, np, rec = self.U, self.np, self.rec
         ua = ua or self.real[a.code]
         ub = ub or self.real[b.code]
+        if self.rng.random() < 0.3:
+            ua, ub = U.Unit(*tuple(ua)), U.Unit(*tuple(ub))
         vals = [0.0, 1.0, -2.5, 1000.0]
         w = {'unit_from': udesc(a), 'unit_to': udesc(b), 'values': vals, 'class': klass}
         if ua.dimension != a.group:
@@ -483,6 +569,21 @@ class Lis:
                                  {'unit_from': udesc(a), 'unit_to': udesc(b), 'value': v, 'there': r, 'back': back, 'bound': bound})
                 evals += 1
                 nt += (a.fscale != b.fscale or a.foffset != b.foffset) and v != 0
+            # the same conversion asked of the category object and of the unit objects (public: retUnitConvertCategory, retUnitConvert)
+            v = rng.choice([1.0, -2.5, 1234.5, rng.uniform(-1000.0, 1000.0)])
+            e = P.exact(v)
+            if P.in_range(v, e):
+                rec.mon('lis_other_entry_points', 2)
+                try:
+                    r1 = LU.retUnitConvertCategory(a.group).convert(v, a.code, b.code)
+                    r2 = LU.retUnitConvert(a.code).convert(v, LU.retUnitConvert(b.code))
+                except Exception as ex:  # noqa
+                    self.rep('lis_other_entry_points', 'raises', 'LIS conversion %r -> %r through the category / unit objects raised %s' % (a.code, b.code, type(ex).__name__),
+                             {'unit_from': udesc(a), 'unit_to': udesc(b), 'value': v}, exc=ex)
+                else:
+                    M = P.magnitude(v, e)
+                    self.check('lis_other_entry_points', 'retUnitConvertCategory(c).convert', a, b, v, r1, e, M)
+                    self.check('lis_other_entry_points', 'retUnitConvert(u).convert', a, b, v, r2, e, M)
         rec.maxi('max_err_eps_of_magnitude_lis', worst)
         rec.bulk_cases('LIS ordered pairs inside each category x 14 values', evals, nt, exhaustive=True)
 
@@ -541,6 +642,12 @@ class Lis:
             v = 1.0 + (n % 13)
             self.refuse('lis_refusal', 'cross-category', lambda: LU.convert(v, a, b),
                         {'call': 'LIS convert(%r, %r, %r)' % (v, a, b), 'unit_from': repr(a), 'unit_to': repr(b)})
+            if n % 4 == 0:
+                ca, cb = self.by_name[a].group, self.by_name[b].group
+                self.refuse('lis_refusal', 'cross-category-via-category-object', lambda: LU.retUnitConvertCategory(ca).convert(v, a, b),
+                            {'call': 'retUnitConvertCategory(%r).convert(%r, %r, %r)' % (ca, v, a, b), 'unit_from': repr(a), 'unit_to': repr(b)})
+                self.refuse('lis_refusal', 'cross-category-via-category-object', lambda: LU.retUnitConvertCategory(cb).convert(v, a, b),
+                            {'call': 'retUnitConvertCategory(%r).convert(%r, %r, %r)' % (cb, v, a, b), 'unit_from': repr(a), 'unit_to': repr(b)})
             n += 1
         rec.bulk_cases('LIS ordered cross-category pairs', n, n, exhaustive=True)
 
@@ -587,7 +694,7 @@ class Lis:
         cats = [us for us in self.by_cat.values()]
         multi = [us for us in cats if len(us) >= 2]
         names = list(self.by_name)
-        arith = ['+', '-', '/', '+=', '-=', 'getInUnits', 'newEngValInUnits', 'convert']
+        arith = ['+', '-', '/', '+=', '-=', 'getInUnits', 'newEngValInUnits', 'convert', 'newEngValInOpticalUnits']
         comp = ['<', '<=', '==', '!=', '>', '>=']
         pyop = {'<': lambda x, y: x < y, '<=': lambda x, y: x <= y, '==': lambda x, y: x == y, '!=': lambda x, y: x != y,
                 '>': lambda x, y: x > y, '>=': lambda x, y: x >= y}
@@ -613,12 +720,33 @@ class Lis:
             if op == 'convert':
                 b.convert(a.uom)
                 return b
+            if op == 'newEngValInOpticalUnits':
+                return b.newEngValInOpticalUnits()
             return pyop[op](a, b)
+
+        prev = None
 
         for i in range(n):
             k = rng.random()
             op = rng.choice(arith + comp)
-            if k < 0.55:
+            # a third of the operations work on the two objects the previous operation left behind (sums accumulated in place,
+            # values converted in place): what an object answers must follow from its present value and unit alone
+            reuse = None
+            if prev is not None and rng.random() < 0.35:
+                pa, pb = prev
+                ka, kb = self.by_name.get(pa.uom), self.by_name.get(pb.uom)
+                fine = lambda x: isinstance(x, float) and math.isfinite(x) and (x == 0 or 1e-9 < abs(x) < 1e12)   # noqa
+                if ka is not None and kb is not None and fine(pa.value) and fine(pb.value):
+                    reuse = prev
+                    if rng.random() < 0.5:
+                        reuse = (pb, pa)
+                        ka, kb = kb, ka
+            prev = None
+            if reuse is not None:
+                ua, ub = ka, kb
+                klass = 'same-unit' if ua is ub else 'convertible' if ua.group == ub.group else 'cross-category'
+                rec.mon('engval_history')
+            elif k < 0.55:
                 us = rng.choice(multi)
                 ua, ub = rng.choice(us), rng.choice(us)
                 klass = 'convertible' if ua is not ub else 'same-unit'
@@ -636,6 +764,8 @@ class Lis:
                 ub = None
             A = rng.choice([rng.uniform(-1000, 1000), float(rng.randrange(-500, 500)), 10.0 ** rng.uniform(-6, 6), 1.0])
             B = rng.choice([rng.uniform(-1000, 1000), float(rng.randrange(-500, 500)), 10.0 ** rng.uniform(-6, 6), 12.0, A])
+            if reuse is not None:
+                A, B = reuse[0].value, reuse[1].value
             del log[:]
             if klass in ('cross-category', 'unknown-unit'):
                 name_a = ua.code
@@ -646,8 +776,12 @@ class Lis:
                     continue
                 if op == '/' and is_blank(name_b):
                     continue      # documented: a blank denominator is a plain number (Mnem: NUL / space padding is blank)
-                a, b = E(A, name_a), E(B, name_b)
-                rec.case(('engval', op, repr(name_a), repr(name_b)), True, classes=['engval-' + klass])
+                if op == 'newEngValInOpticalUnits':
+                    continue
+                a, b = reuse if reuse is not None else (E(A, name_a), E(B, name_b))
+                if reuse is not None:
+                    prev = reuse
+                rec.case(('engval', op, repr(name_a), repr(name_b)) + ((A, B) if reuse is not None else ()), True, classes=['engval-' + klass] + (['engval-history'] if reuse is not None else []))
                 ok = self.refuse('engval_refusal', klass + ':' + ('cmp' if op in comp else 'arith'), lambda: apply(op, a, b),
                                  {'call': 'EngVal(%r, %r) %s EngVal(%r, %r)' % (A, name_a, op, B, name_b), 'op': op})
                 if ok:
@@ -656,11 +790,35 @@ class Lis:
                         rec.add('engval_refusals_not_from_one_convert_call')
                 continue
             # convertible / same unit: model
-            a, b = E(A, ua.code), E(B, ub.code)
+            a, b = reuse if reuse is not None else (E(A, ua.code), E(B, ub.code))
             if op == '/' and is_blank(ub.code):
                 continue
+            prev = (a, b)
             rec.case(('engval', op, repr(ua.code), repr(ub.code), A, B), ua is not ub and (ua.fscale != ub.fscale or ua.foffset != ub.foffset),
-                     classes=['engval-' + klass], sample={'expr': 'EngVal(%r, %r) %s EngVal(%r, %r)' % (A, ua.code, op, B, ub.code)} if i < 2 else None)
+                     classes=['engval-' + klass] + (['engval-history'] if reuse is not None else []), sample={'expr': 'EngVal(%r, %r) %s EngVal(%r, %r)' % (A, ua.code, op, B, ub.code)} if i < 2 else None)
+            if op == 'newEngValInOpticalUnits':
+                w = {'op': op, 'b': [B, repr(ub.code)]}
+                try:
+                    res = apply(op, a, b)
+                except Exception as e:  # noqa
+                    self.rep('engval_arithmetic', 'raises', 'EngVal(%r, %r).newEngValInOpticalUnits() raised %s' % (B, ub.code, type(e).__name__), w, exc=e)
+                    continue
+                rec.mon('engval_arithmetic')
+                ru = self.by_name.get(res.uom)
+                if ru is None or ru.group != ub.group:
+                    self.rep('engval_arithmetic', 'optical-units', 'EngVal(%r, %r).newEngValInOpticalUnits() has units %r, not a unit of category %r' % (B, ub.code, res.uom, ub.group), dict(w, got=repr(res.uom)))
+                    continue
+                Po = self.pair(ub, ru)
+                eo = Po.exact(B)
+                bound = K * EPS * Po.magnitude(B, eo) if ru is not ub else 0.0
+                try:
+                    d = float(abs(Fr(res.value) - eo))
+                except (TypeError, ValueError, OverflowError):
+                    d = float('inf')
+                if d > bound or b.value != B or b.uom != ub.code:
+                    self.rep('engval_arithmetic', op, 'EngVal(%r, %r).newEngValInOpticalUnits() = %r %r, exact %.17g (the object itself is now %r %r)' % (
+                        B, ub.code, res.value, res.uom, float(eo), b.value, b.uom), dict(w, got=res.value, got_units=repr(res.uom), exact=float(eo), bound=bound))
+                continue
             P = self.pair(ub, ua)
             if ua is ub:
                 ec, Mc = Fr(B), abs(B)
@@ -747,6 +905,8 @@ def run_shard(ctx, p):
                            sample={'pair': [firsts[0].code, O.by_dim[firsts[0].group][-1].code], 'dimension': firsts[0].group,
                                    'values': pair_values(ctx.sub_rng('sample'), firsts[0], O.by_dim[firsts[0].group][-1])})
             O.large_arrays(2 if ctx.tier == 'quick' else 12)
+            for a in firsts:
+                O.array_kinds(a, rng.choice(O.by_dim[a.group]))
             # ---- B: triples
             dims = [us for us in O.by_dim.values() if len(us) >= 2]
             if p['all_triples']:
@@ -771,6 +931,13 @@ def run_shard(ctx, p):
                     continue
                 rec.case(('cross', a.code, b.code), True, classes=['osdd-cross-dimension'])
                 O.cross(a, b, 'table')
+            # every ordered pair of dimensions (names that are prefixes of one another, the empty name of the currencies, ...)
+            dnames = list(O.by_dim)
+            dpairs = [(x, y) for x in dnames for y in dnames if x != y][part::parts]
+            for x, y in dpairs:
+                a, b = rng.choice(O.by_dim[x]), rng.choice(O.by_dim[y])
+                O.cross(a, b, 'dimension-pair-sweep')
+            rec.bulk_cases('OSDD one unit pair for every ordered pair of different dimensions', len(dpairs), len(dpairs), exhaustive=True)
             for i in range(max(20, p['n_cross'] // 20)):
                 us = rng.choice(dims)
                 a, b = rng.choice(us), rng.choice(us)
